@@ -24,12 +24,231 @@ package stats
 //@ func (s *StatsCtx) setLimit(limit time.Duration)
 //@   requires held(s.confMu)
 //@   modifies *
+
+// ---- C09: statistics totals equal the queries counted inside the retention window ----
+// Abstract database content: dbN[id] is NTotal of the unit stored in bucket id (0 when the bucket is absent),
+// dbRes[id*8+r] its NResult[r].  Only the two trusted wrappers around gob+bbolt read or write them.
+//@ ghost var dbN map[int]int
+//@ ghost var dbRes map[int]int
+//@ declare bucketID(name []byte) int
+
+// wsum(q, n) is the uint64 (wrapping) sum q[0] + ... + q[n-1] of a sequence.  wsumS is the same function; writing
+// wsumS(q, n) asks for one unfolding of the definition at n (the definition is triggered only by wsumS terms, so the
+// recursion cannot feed the solver's instantiation loop).
+//@ declare wsum(q map[int]int, n int) int
+//@ declare wsumS(q map[int]int, n int) int
+//@ axiom wsum_def: forall q map[int]int, n int :: {wsumS(q, n)} wsumS(q, n) == wsum(q, n) && (n <= 0 ==> wsum(q, n) == 0) && (n > 0 ==> wsum(q, n) == uint64(wsum(q, n - 1) + q[n - 1]))
+
+// uid(f, j) is the id of the j-th unit after f in uint32 arithmetic, defined without mod (solver-friendly);
+// the theorem states what it means.
+//@ declare uid(f int, j int) int
+//@ axiom uid_base: forall f int, j int :: {uid(f, j)} j <= 0 ==> uid(f, j) == f
+//@ axiom uid_step: forall f int, j int :: {uid(f, j)} j > 0 ==> uid(f, j) == (uid(f, j - 1) == 4294967295 ? 0 : uid(f, j - 1) + 1)
+//@ theorem uid_is_mod induction j: forall f int, j int :: 0 <= f && f < 4294967296 && j >= 0 ==> uid(f, j) == (f + j) mod 4294967296
+
+//@ define wfUnit(u *unit) bool = u != nil && len(u.nResult) == 6 && u.domains != nil && u.blockedDomains != nil && u.clients != nil && u.upstreamsResponses != nil && u.upstreamsTimeSum != nil
+//@ define resIs(u *unitDB, id int) bool = u.NResult[2] == dbRes[id * 8 + 2] && u.NResult[3] == dbRes[id * 8 + 3] && u.NResult[4] == dbRes[id * 8 + 4] && u.NResult[5] == dbRes[id * 8 + 5]
+//@ define wfUnits(units []*unitDB) bool = forall k int :: {units[k]} 0 <= k && k < len(units) ==> units[k] != nil && len(units[k].NResult) == 6
+
+//@ func (e *Entry) validate() (err error)
+//@   property C09
+//@   requires e.Result >= 0
+//@   ensures valid: err == nil <==> (1 <= e.Result && e.Result < 6 && e.Domain != "" && e.Client != "")
+//@   modifies nothing
+
+//@ func newUnit(id uint32) (u *unit)
+//@   property C09
+//@   ensures fresh(u) && wfUnit(u) && u.id == id && u.nTotal == 0 && u.timeSum == 0
+//@   ensures forall r int :: 0 <= r && r < 6 ==> u.nResult[r] == 0
+//@   modifies nothing
+
+// Counted exactly once, in exactly one result category.
+//@ func (u *unit) add(e *Entry)
+//@   property C09
+//@   requires wfUnit(u) && 1 <= e.Result && e.Result < 6
+//@   requires forall k int :: 0 <= k && k < len(e.UpstreamStats) ==> e.UpstreamStats[k] != nil
+//@   ensures once: u.nTotal == uint64(old(u.nTotal) + 1)
+//@   ensures category: forall r int :: 0 <= r && r < 6 ==> u.nResult[r] == (r == old(e.Result) ? uint64(old(u.nResult[r]) + 1) : old(u.nResult[r]))
+//@   ensures same-unit: u.id == old(u.id) && wfUnit(u)
+//@   modifies u.nTotal, u.timeSum, elems(u.nResult), entries(u.domains), entries(u.blockedDomains), entries(u.clients), entries(u.upstreamsResponses), entries(u.upstreamsTimeSum)
+
+//@ func (s *StatsCtx) Update(e *Entry)
+//@   property C09
+//@   requires e.Result >= 0
+//@   requires s.curr != nil ==> wfUnit(s.curr)
+//@   requires forall k int :: 0 <= k && k < len(e.UpstreamStats) ==> e.UpstreamStats[k] != nil
+//@   requires nolocks()
+//@   ensures counted: old(s.enabled) && old(s.limit) != 0 && old(s.curr) != nil && (1 <= old(e.Result) && old(e.Result) < 6 && old(e.Domain) != "" && old(e.Client) != "") ==> s.curr == old(s.curr) && s.curr.nTotal == uint64(old(s.curr.nTotal) + 1) && s.curr.nResult[old(e.Result)] == uint64(old(s.curr.nResult[e.Result]) + 1)
+//@   ensures not-counted: old(s.curr) != nil && !(old(s.enabled) && old(s.limit) != 0 && 1 <= old(e.Result) && old(e.Result) < 6 && old(e.Domain) != "" && old(e.Client) != "") ==> s.curr == old(s.curr) && s.curr.nTotal == old(s.curr.nTotal) && (forall r int :: 0 <= r && r < 6 ==> s.curr.nResult[r] == old(s.curr.nResult[r]))
+//@   modifies *
+
+// (trusted: builds, sorts and truncates a slice of its own; the top lists are not part of the property)
+//@ func convertMapToSlice(m map[string]uint64, maxVal int) (s []countPair)
+//@   trusted
+//@   ensures len(s) <= max(maxVal, 0) && fresh(arrayOf(s))
+//@   modifies nothing
+
+//@ func convertSliceToMap(a []countPair) (m map[string]uint64)
+//@   property C09
+//@   ensures m != nil && fresh(m)
+//@   modifies nothing
+
+// What is written to the database is exactly what was counted.
+//@ func (u *unit) serialize() (udb *unitDB)
+//@   property C09
+//@   ensures fresh(udb) && udb.NTotal == u.nTotal && len(udb.NResult) == len(u.nResult)
+//@   ensures results: forall r int :: 0 <= r && r < len(u.nResult) ==> udb.NResult[r] == u.nResult[r]
+//@   modifies nothing
+
+//@ func (u *unit) deserialize(udb *unitDB)
+//@   property C09
+//@   nullable udb
+//@   ensures restored: udb != nil ==> u.nTotal == old(udb.NTotal) && len(u.nResult) == 6 && (forall r int :: 0 <= r && r < 6 ==> u.nResult[r] == (r < old(len(udb.NResult)) ? old(udb.NResult[r]) : 0))
+//@   ensures udb == nil ==> u.nTotal == old(u.nTotal) && u.nResult == old(u.nResult)
+//@   ensures u.id == old(u.id)
+//@   modifies u.nTotal, u.nResult, u.domains, u.blockedDomains, u.clients, u.upstreamsResponses, u.upstreamsTimeSum, u.timeSum
+
+//@ func idToUnitName(id uint32) (name []byte)
+//@   trusted
+//@   ensures bucketID(name) == id
+//@   modifies nothing
+//@ func finishTxn(tx *bbolt.Tx, commit bool) (err error)
+//@   property C09
+//@   modifies nothing
+
+// gob + bbolt wrappers (trusted): the stored unit is the one handed over; a loaded unit is the stored one, an absent
+// or undecodable bucket is an empty unit.  Units are stored by this version of the code, so NResult has resultLast entries.
+//@ func (s *StatsCtx) flushUnitToDB(udb *unitDB, tx *bbolt.Tx, id uint32) (err error)
+//@   trusted
+//@   ghost at return: dbN[id] = (err == nil ? udb.NTotal : old(dbN[id]))
+//@   modifies nothing
+//@ func (s *StatsCtx) loadUnitFromDB(tx *bbolt.Tx, id uint32) (udb *unitDB)
+//@   trusted
+//@   ensures udb != nil ==> fresh(udb) && udb.NTotal == dbN[id] && len(udb.NResult) == 6 && resIs(udb, id)
+//@   ensures udb == nil ==> dbN[id] == 0 && dbRes[id * 8 + 2] == 0 && dbRes[id * 8 + 3] == 0 && dbRes[id * 8 + 4] == 0 && dbRes[id * 8 + 5] == 0
+//@   modifies nothing
+
+//@ func (functype) UnitIDGenFunc() (id uint32)
+//@   modifies nothing
+
+// Hourly swap: the unit that was current is persisted under its own id with its own counts, the new current unit is
+// empty and carries the new id, and the only bucket deleted is the one that leaves the window (id - limit).
 //@ func (s *StatsCtx) flushDB(id uint32, limit uint32, ptr *unit) (cont bool, sleepFor time.Duration)
+//@   property C09
 //@   requires held(s.currMu) && (held(s.confMu) || rheld(s.confMu))
+//@   requires wfUnit(ptr)
+//@   callsite (*github.com/AdguardTeam/AdGuardHome/internal/stats.StatsCtx).flushUnitToDB(udb, tx, uid) requires persist-old-unit: uid == ptr.id && udb.NTotal == ptr.nTotal && len(udb.NResult) == 6 && (forall r int :: 0 <= r && r < 6 ==> udb.NResult[r] == ptr.nResult[r])
+//@   callsite (*go.etcd.io/bbolt.Tx).DeleteBucket(name) requires delete-leaving-bucket: bucketID(name) == uint32(id - limit)
+//@   ensures swapped: s.curr != old(s.curr) ==> fresh(s.curr) && wfUnit(s.curr) && s.curr.id == id && s.curr.nTotal == 0 && (forall r int :: 0 <= r && r < 6 ==> s.curr.nResult[r] == 0)
+//@   ensures old-unit-kept: ptr.nTotal == old(ptr.nTotal) && ptr.id == old(ptr.id)
+//@   ensures persisted-or-kept: s.curr == old(s.curr) || dbN[old(ptr.id)] == old(ptr.nTotal) || dbN[old(ptr.id)] == old(dbN[ptr.id])
+//@   modifies s.curr, dbN
+
+//@ func (s *StatsCtx) flush() (cont bool, sleepFor time.Duration)
+//@   property C09
+//@   requires nolocks()
+//@   requires s.curr != nil ==> wfUnit(s.curr)
+//@   callsite (*github.com/AdguardTeam/AdGuardHome/internal/stats.StatsCtx).flushDB(id, limit, ptr) requires hour-changed: ptr == s.curr && ptr != nil && ptr.id != id && limit != 0
 //@   modifies *
+
+// Clean shutdown persists the current unit under its own id.
+//@ func (s *StatsCtx) Close() (err error)
+//@   property C09
+//@   requires nolocks()
+//@   requires s.curr != nil && wfUnit(s.curr)
+//@   callsite (*github.com/AdguardTeam/AdGuardHome/internal/stats.StatsCtx).flushUnitToDB(udb, tx, uid) requires persist-current: uid == s.curr.id && udb.NTotal == s.curr.nTotal && (forall r int :: 0 <= r && r < 6 ==> udb.NResult[r] == s.curr.nResult[r])
+//@   modifies *
+
+// Window assembly: limit-1 stored units (ids curID-limit+1 .. curID-1, uint32 arithmetic, absent bucket = empty unit)
+// followed by the current unit; nothing older is loaded.
+//@ func (s *StatsCtx) loadUnits(limit uint32) (units []*unitDB, curID uint32)
+//@   property C09
+//@   requires limit >= 1
+//@   requires wfUnit(s.curr)
+//@   requires !held(s.currMu) && !rheld(s.currMu)
+//@   ensures shape: units != nil ==> len(units) == limit && wfUnits(units)
+//@   ensures stored: units != nil ==> (forall k int :: 0 <= k && k < limit - 1 ==> units[k].NTotal == dbN[uid(uint32(curID - limit + 1), k)] && resIs(units[k], uid(uint32(curID - limit + 1), k)))
+//@   ensures current: units != nil ==> curID == old(s.curr.id) && units[limit - 1].NTotal == old(s.curr.nTotal) && (forall r int :: 0 <= r && r < 6 ==> units[limit - 1].NResult[r] == old(s.curr.nResult[r]))
+//@   modifies nothing
+//@   loop 1 invariant len(units) == uint32(i - firstID)
+//@   loop 1 invariant forall r int :: 0 <= r && r < 6 ==> cur.nResult[r] == old(s.curr.nResult[r])
+//@   loop 1 invariant i == uid(firstID, len(units))
+//@   loop 1 invariant len(units) <= limit - 1
+//@   loop 1 invariant (len(units) == limit - 1 <==> i == curID)
+//@   loop 1 invariant fresh(arrayOf(units))
+//@   loop 1 invariant cap(units) == limit
+//@   loop 1 invariant forall k int :: {units[k]} 0 <= k && k < len(units) ==> units[k] != nil && allocated(units[k])
+//@   loop 1 invariant forall k int :: {units[k]} 0 <= k && k < len(units) ==> len(units[k].NResult) == 6
+//@   loop 1 invariant forall k int :: {units[k]} 0 <= k && k < len(units) ==> units[k].NTotal == dbN[uid(firstID, k)]
+//@   loop 1 invariant forall k int :: {units[k]} 0 <= k && k < len(units) ==> resIs(units[k], uid(firstID, k))
+
+// Totals are the (uint64) sums over exactly the units handed in.
 //@ func (s *StatsCtx) dataFromUnits(units []*unitDB, curID uint32) (resp *StatsResp)
+//@   property C09
 //@   requires held(s.confMu) || rheld(s.confMu)
-//@   modifies *
+//@   requires wfUnits(units) && len(units) <= 4294967296
+//@   ensures total: resp.NumDNSQueries == wsum(seqof k int :: (0 <= k && k < len(units) ? old(units[k].NTotal) : 0), len(units))
+//@   ensures blocked: resp.NumBlockedFiltering == wsum(seqof k int :: (0 <= k && k < len(units) ? old(units[k].NResult[2]) : 0), len(units))
+//@   ensures safebrowsing: resp.NumReplacedSafebrowsing == wsum(seqof k int :: (0 <= k && k < len(units) ? old(units[k].NResult[3]) : 0), len(units))
+//@   ensures safesearch: resp.NumReplacedSafesearch == wsum(seqof k int :: (0 <= k && k < len(units) ? old(units[k].NResult[4]) : 0), len(units))
+//@   ensures parental: resp.NumReplacedParental == wsum(seqof k int :: (0 <= k && k < len(units) ? old(units[k].NResult[5]) : 0), len(units))
+//@   modifies nothing
+//@   loop 1 invariant forall k int :: {units[k]} 0 <= k && k < len(units) ==> units[k].NTotal == old(units[k].NTotal) && units[k].NResult[2] == old(units[k].NResult[2]) && units[k].NResult[3] == old(units[k].NResult[3]) && units[k].NResult[4] == old(units[k].NResult[4]) && units[k].NResult[5] == old(units[k].NResult[5])
+//@   loop 1 invariant sum.NTotal == wsumS(seqof k int :: (0 <= k && k < len(units) ? old(units[k].NTotal) : 0), #i)
+//@   loop 1 invariant len(sum.NResult) == 6 && fresh(arrayOf(sum.NResult))
+//@   loop 1 invariant sum.NResult[2] == wsumS(seqof k int :: (0 <= k && k < len(units) ? old(units[k].NResult[2]) : 0), #i)
+//@   loop 1 invariant sum.NResult[3] == wsumS(seqof k int :: (0 <= k && k < len(units) ? old(units[k].NResult[3]) : 0), #i)
+//@   loop 1 invariant sum.NResult[4] == wsumS(seqof k int :: (0 <= k && k < len(units) ? old(units[k].NResult[4]) : 0), #i)
+//@   loop 1 invariant sum.NResult[5] == wsumS(seqof k int :: (0 <= k && k < len(units) ? old(units[k].NResult[5]) : 0), #i)
+
+//@ func microsecondsToSeconds(n float64) (r float64)
+//@   property C09
+//@   modifies nothing
+//@ func topsCollector(units []*unitDB, max int, ignored *aghnet.IgnoreEngine, pg pairsGetter) (r0 []map[string]uint64)
+//@   trusted
+//@   nullable ignored
+//@   modifies nothing
+//@ func topUpstreamsPairs(units []*unitDB) (topUpstreamsResponses []topAddrs, topUpstreamsAvgTime []topAddrsFloat)
+//@   trusted
+//@   modifies nothing
+//@ func topClientPairs(s *StatsCtx) (pg pairsGetter)
+//@   trusted
+//@   modifies nothing
+
+// Hourly series: element k is unit k, so the series sums to the totals.
+//@ func (s *StatsCtx) fillCollectedStats(data *StatsResp, units []*unitDB, curID uint32)
+//@   property C09
+//@   requires wfUnits(units) && len(units) <= 4294967296
+//@   ensures hourly: len(units) / 24 <= 7 ==> data.TimeUnits == "hours" && len(data.DNSQueries) == len(units) && len(data.BlockedFiltering) == len(units) && len(data.ReplacedSafebrowsing) == len(units) && len(data.ReplacedParental) == len(units)
+//@   ensures hourly-series: len(units) / 24 <= 7 ==> (forall k int :: 0 <= k && k < len(units) ==> data.DNSQueries[k] == old(units[k].NTotal) && data.BlockedFiltering[k] == old(units[k].NResult[2]) && data.ReplacedSafebrowsing[k] == old(units[k].NResult[3]) && data.ReplacedParental[k] == old(units[k].NResult[5]))
+//@   ensures daily: len(units) / 24 > 7 ==> data.TimeUnits == "days" && len(data.DNSQueries) == len(units) / 24
+//@   modifies data.TimeUnits, data.DNSQueries, data.BlockedFiltering, data.ReplacedSafebrowsing, data.ReplacedParental
+//@   loop 1 invariant len(data.DNSQueries) == len(units) && len(data.BlockedFiltering) == len(units) && len(data.ReplacedSafebrowsing) == len(units) && len(data.ReplacedParental) == len(units)
+//@   loop 1 invariant fresh(arrayOf(data.DNSQueries)) && fresh(arrayOf(data.BlockedFiltering)) && fresh(arrayOf(data.ReplacedSafebrowsing)) && fresh(arrayOf(data.ReplacedParental))
+//@   loop 1 invariant arrayOf(data.DNSQueries) != arrayOf(data.BlockedFiltering) && arrayOf(data.DNSQueries) != arrayOf(data.ReplacedSafebrowsing) && arrayOf(data.DNSQueries) != arrayOf(data.ReplacedParental) && arrayOf(data.BlockedFiltering) != arrayOf(data.ReplacedSafebrowsing) && arrayOf(data.BlockedFiltering) != arrayOf(data.ReplacedParental) && arrayOf(data.ReplacedSafebrowsing) != arrayOf(data.ReplacedParental)
+//@   loop 1 invariant forall k int :: {units[k]} 0 <= k && k < len(units) ==> units[k].NTotal == old(units[k].NTotal) && units[k].NResult[2] == old(units[k].NResult[2]) && units[k].NResult[3] == old(units[k].NResult[3]) && units[k].NResult[5] == old(units[k].NResult[5])
+//@   loop 1 invariant forall k int :: 0 <= k && k < len(units) ==> data.DNSQueries[k] == (k < #i ? old(units[k].NTotal) : 0) && data.BlockedFiltering[k] == (k < #i ? old(units[k].NResult[2]) : 0) && data.ReplacedSafebrowsing[k] == (k < #i ? old(units[k].NResult[3]) : 0) && data.ReplacedParental[k] == (k < #i ? old(units[k].NResult[5]) : 0)
+
+//@ func countHours(curHour uint32, days int) (n int)
+//@   property C09
+//@   requires days >= 1 && days <= 4294967296
+//@   ensures n == (days - 1) * 24 + (curHour % 24 == 0 ? 24 : curHour % 24)
+//@   modifies nothing
+
+// Daily series: only the last countHours units are used and each goes to exactly one day bucket inside the series.
+//@ func (s *StatsCtx) fillCollectedStatsDaily(data *StatsResp, units []*unitDB, curHour uint32, days int)
+//@   property C09
+//@   requires wfUnits(units) && days == len(units) / 24 && days > 7 && len(units) <= 4294967296
+//@   requires len(data.DNSQueries) == days && len(data.BlockedFiltering) == days && len(data.ReplacedSafebrowsing) == days && len(data.ReplacedParental) == days
+//@   modifies elems(data.DNSQueries), elems(data.BlockedFiltering), elems(data.ReplacedSafebrowsing), elems(data.ReplacedParental)
+
+// End to end: the reported total is the (uint64) sum of the limit-1 stored units that precede the current one plus the
+// current unit; nothing older than the window contributes.
 //@ func (s *StatsCtx) getData(limit uint32) (resp *StatsResp, ok bool)
+//@   property C09
 //@   requires held(s.confMu) || rheld(s.confMu)
-//@   modifies *
+//@   requires !held(s.currMu) && !rheld(s.currMu)
+//@   requires wfUnit(s.curr)
+//@   ensures window-total: ok && limit > 0 ==> resp.NumDNSQueries == wsum(seqof k int :: (0 <= k && k < limit - 1 ? old(dbN[uid(uint32(s.curr.id - limit + 1), k)]) : (k == limit - 1 ? old(s.curr.nTotal) : 0)), limit)
+//@   ensures disabled: limit == 0 ==> ok && resp.NumDNSQueries == 0 && len(resp.DNSQueries) == 0
+//@   modifies nothing
